@@ -7,11 +7,11 @@ from .c15 import _metric_values
 KEYS_SKIP = ("computation_time",)
 
 
-def _eval(pred, ref, input_type):
+def _eval(pred, ref, input_type, thr=None):
     from panoptica import Panoptica_Evaluator, InputType, NaiveThresholdMatching, ConnectedComponentsInstanceApproximator
     from panoptica.metrics import Metric
     ev = Panoptica_Evaluator(expected_input=InputType[input_type], instance_approximator=ConnectedComponentsInstanceApproximator(),
-                             instance_matcher=NaiveThresholdMatching(), instance_metrics=[Metric.DSC, Metric.IOU, Metric.ASSD, Metric.RVD], global_metrics=[Metric.DSC, Metric.IOU])
+                             instance_matcher=NaiveThresholdMatching() if thr is None else NaiveThresholdMatching(matching_threshold=thr), instance_metrics=[Metric.DSC, Metric.IOU, Metric.ASSD, Metric.RVD], global_metrics=[Metric.DSC, Metric.IOU])
     r = ev.evaluate(pred, ref, verbose=False)["ungrouped"][0]
     return {k: v for k, v in _metric_values(r).items() if k not in KEYS_SKIP and "cldsc" not in k}
 
@@ -111,6 +111,48 @@ def e2e(params):
     return {"violated": bool(bad), "problems": bad[:3]}
 
 
+
+def ties(params):
+    """Given instance labels (UNMATCHED_INSTANCE) and a low matching threshold, several candidates can tie exactly; which one wins may
+    depend on label values only, never on where the objects lie: flips, transposition and padding must not change the result."""
+    serial_pools()
+    rng = np.random.RandomState(int(params.get("seed", 0)) + 11)
+    scenes = []
+    ref = np.zeros((6, 10), np.uint8); pred = np.zeros((6, 10), np.uint8)
+    ref[2:4, 4:6] = 1; ref[2:4, 6:8] = 2; pred[3, 2:6] = 1; pred[2, 4:8] = 2
+    scenes.append((pred, ref))
+    for _ in range(int(params.get("n", 12))):
+        shape = tuple(rng.randint(2, 5, size=2))
+        scenes.append(((rng.rand(*shape) < 0.7).astype(np.uint8) * rng.randint(1, 4, size=shape).astype(np.uint8),
+                       (rng.rand(*shape) < 0.7).astype(np.uint8) * rng.randint(1, 4, size=shape).astype(np.uint8)))
+    variants = {"flip axis 0": lambda a: a[::-1, :], "flip axis 1": lambda a: a[:, ::-1], "flip both": lambda a: a[::-1, ::-1],
+                "transpose": lambda a: np.ascontiguousarray(a.T), "pad": lambda a: np.pad(a, ((3, 1), (0, 2)))}
+    bad, n = [], 0
+    for pred, ref in scenes:
+        if not pred.any() or not ref.any():
+            continue
+        for thr in (0.3, 0.2):
+            try:
+                base = _eval(pred.copy(), ref.copy(), "UNMATCHED_INSTANCE", thr)
+            except Exception as e:
+                continue
+            for name, f in variants.items():
+                n += 1
+                try:
+                    got = _eval(f(pred).copy(), f(ref).copy(), "UNMATCHED_INSTANCE", thr)
+                except Exception as e:
+                    got = {"raised": f"{type(e).__name__}: {e}"[:100]}
+                if got != base:
+                    diff = {k: (base.get(k), got.get(k)) for k in set(base) | set(got) if base.get(k) != got.get(k)}
+                    bad.append({"transform": name, "threshold": thr, "pred": pred.tolist(), "ref": ref.tolist(), "diff": str(diff)[:240]})
+                    break
+            if len(bad) >= 3:
+                break
+        if len(bad) >= 3:
+            break
+    return {"violated": bool(bad), "problems": bad[:3], "evaluations": n}
+
+
 def bounded(params):
     serial_pools()
     tier, seed = params.get("tier", "quick"), int(params.get("seed", 0))
@@ -148,6 +190,10 @@ def bounded(params):
         evals += 1
         for pb in sr["problems"][:1]:
             failures.append({"input": {"metric": mname_, "case": pb}, "problems": [str(pb)[:300]], "replay_kind": "c03.scorer"})
+    tr = ties({"seed": seed, "n": 12 if tier == "quick" else 150})
+    evals += tr.get("evaluations", 1)
+    for pb in tr["problems"][:2]:
+        failures.append({"input": pb, "problems": [str(pb.get("diff"))[:300]], "replay_kind": "c10.ties"})
     n = 40 if tier == "quick" else 400
     for it_no in range(n):
         nd = rng.choice([1, 2, 3])
